@@ -86,6 +86,13 @@ def check(ctx):
     rep.rule('G3', 'signatures computed per side from that side\'s files with the reconciled kspec')
     rep.rule('G4', 'dump_dmat_csv: header, strictly zipped rows, fixed 4-decimal format, csv.writer')
     rep.trusted += ["format(float32, '0.4f') rounds to four decimals", 'csv.writer quoting', 'C05 (cells), C13 (file order), C14 (parameter reconciliation)']
+    rep.rule('G5', 'labels derive from the file names as typed: no click.Path option rewrites the path (resolve_path would turn a symlinked genome into its target)')
+    from ..clirules import check_path_types
+    check_path_types(rep, m, 'G5')
+    # the distance kernel merges SORTED duplicate-free arrays: signatures computed from genome files meet that precondition (C01-K7 re-evaluated)
+    from . import c01
+    rep.rule('K7', 'C01-K7 re-evaluated: every accumulator returns a sorted, duplicate-free signature of the right dtype (the kernel precondition)')
+    c01.analyse_accumulators(ctx)
     fi = m.func(D)
     rep.functions.add(fi.qualname)
     fn = fi.node
@@ -316,6 +323,11 @@ _CALC = "ref_sigfiles = SequenceFile.from_paths(ref_files, 'fasta', 'auto')\nTAB
 _MODE = "\tif square:\n\t\tdmat = jaccarddist_pairwise(query_sigs, progress=dist_pconf)\n\n\telse:\n\t\tif ref_sigs is None:\n\t\t\t" + _CALC.replace('TABS', '\t\t\t') + "\n\t\tdmat = jaccarddist_matrix(query_sigs, ref_sigs, progress=dist_pconf)\n"
 _HOIST = "\tif ref_sigs is None and not square:\n\t\t" + _CALC.replace('TABS', '\t\t') + "\n"
 VARIANTS = [
+    V('file options resolve symlinks (seeded C16c)', 'B', 'src/gambit/cli/common.py', "\tkw.setdefault('path_type', Path)\n\treturn click.Path(file_okay=True, dir_okay=False, **kw)\n",
+      "\tkw.setdefault('path_type', Path)\n\tkw.setdefault('resolve_path', True)\n\treturn click.Path(file_okay=True, dir_okay=False, **kw)\n", 'G5'),
+    V('one option asks for a resolved path', 'B', 'src/gambit/cli/dist.py', "@click.option('-q', type=common.filepath(exists=True), multiple=True,", "@click.option('-q', type=common.filepath(exists=True, resolve_path=True), multiple=True,", 'G5'),
+    V('E: resolve_path=False spelled out', 'E', 'src/gambit/cli/common.py', "\tkw.setdefault('path_type', Path)\n\treturn click.Path(file_okay=True, dir_okay=False, **kw)\n",
+      "\tkw.setdefault('path_type', Path)\n\tkw.setdefault('resolve_path', False)\n\treturn click.Path(file_okay=True, dir_okay=False, **kw)\n"),
     V('label arguments swapped', 'B', _D, "dump_dmat_csv(output, dmat, query_ids, ref_ids)", "dump_dmat_csv(output, dmat, ref_ids, query_ids)", 'G2'),
     V('matrix operands swapped', 'B', _D, "dmat = jaccarddist_matrix(query_sigs, ref_sigs, progress=dist_pconf)", "dmat = jaccarddist_matrix(ref_sigs, query_sigs, progress=dist_pconf)", 'G2'),
     V('square ids from another list', 'B', _D, "\t\tref_ids = query_ids\n", "\t\tref_ids = sorted(query_ids)\n", 'G1'),
